@@ -651,6 +651,114 @@ static int stream_drive(int start, int nexec)
 	return 0;
 }
 
+/* -------------------------------------------------------------------------------- C08 on generated documents */
+/* every allocation request made while parsing a generated (valid, mutated, or multi-chunk) document is failed in
+ * turn (all of them up to 48 requests, a sample beyond): the outcome must be the fault-free outcome or "no value,
+ * out-of-memory status", and after freeing the parser (and the value) nothing may remain allocated */
+static outcome parse_once(int fl, const int *cuts, int ncuts, long fail_at, long *nreq, int *hit)
+{
+	json_tokener *t = json_tokener_new_ex(32);
+	outcome o = {json_tokener_error_memory, NULL, 0, 0, 0};
+	vh_alloc_arm(fail_at);
+	if (t)
+	{
+		json_tokener_set_flags(t, flags_of(fl));
+		o = run_chunked(t, T, TL, cuts, ncuts);
+	}
+	*nreq = vh_nalloc;
+	*hit = fail_at >= 0 && vh_nalloc > fail_at;
+	vh_alloc_disarm();
+	if (t)
+		json_tokener_free(t);
+	return o;
+}
+static int fault_drive(int start, int nexec)
+{
+	const char *seed = getenv("VERIF_SEED");
+	uint64_t s0 = seed ? strtoull(seed, 0, 10) : 1;
+	allow_nul_names = 0;
+	for (int x = start; x < nexec; x++)
+	{
+		vh_srand(s0 * 1000003ull + 808 + (uint64_t)x);
+		ev_begin("new");
+		ev_end();
+		int fl = x % 5;
+		gen_doc(2 + (int)vh_below(4), 4 + (int)vh_below(24));
+		if (vh_below(4) == 0)
+			mutate();
+		if (vh_below(2) && TL < MAXTEXT - 1)
+			T[TL++] = 0;
+		int cuts[4], ncuts = 0;
+		if (vh_below(2) && TL > 2)
+		{
+			int k = 1 + (int)vh_below(3), p = 0;
+			while (ncuts < k && p < TL - 1)
+			{
+				p += 1 + (int)vh_below((uint32_t)(TL / k + 1));
+				if (p < TL)
+					cuts[ncuts++] = p;
+			}
+		}
+		long live0 = vh_live, n = 0;
+		int hit = 0;
+		outcome clean = parse_once(fl, cuts, ncuts, -1, &n, &hit);
+		long long c[4];
+		for (int i = 0; i < ncuts; i++)
+			c[i] = cuts[i];
+		{
+			/* dumping a value makes json-c allocate its cached print buffers: do that once, unrecorded, so that the
+			 * accounts of the faulted runs below only see their own allocations */
+			FILE *keep = ev_out, *nul = fopen("/dev/null", "w");
+			ev_out = nul;
+			ev_begin("warm");
+			ev_outcome("clean", &clean);
+			ev_end();
+			ev_out = keep;
+			fclose(nul);
+		}
+		for (long j = 0; j < n && j < 64; j++)
+		{
+			long k = n <= 64 ? j : (j < 24 ? j : (long)vh_below((uint32_t)n));
+			long nk = 0, live1 = vh_live;
+			int hk = 0;
+			outcome got = parse_once(fl, cuts, ncuts, k, &nk, &hk);
+			ev_begin("pfault");
+			ev_bytes("text", T, (size_t)(TL > 200 ? 200 : TL));
+			ev_int("len", TL);
+			ev_int("fl", fl);
+			ev_ints("cuts", c, (size_t)ncuts);
+			ev_int("k", k);
+			ev_int("n", n);
+			ev_bool("hit", hk);
+			ev_str("site", hk ? vh_fail_site : "");
+			ev_outcome("clean", &clean);
+			ev_outcome("got", &got);
+			drop(&got);
+			/* parser freed, value released: nothing of this run may remain */
+			ev_int("leak", (int)(vh_live - live1));
+			ev_end();
+		}
+		drop(&clean);
+		ev_begin("pfault");
+		ev_bytes("text", T, (size_t)(TL > 200 ? 200 : TL));
+		ev_int("len", TL);
+		ev_int("fl", fl);
+		ev_ints("cuts", c, (size_t)ncuts);
+		ev_int("k", -1);
+		ev_int("n", n);
+		ev_bool("hit", 0);
+		ev_open_obj("clean");
+		ev_str("st", "same");
+		ev_close_obj();
+		ev_open_obj("got");
+		ev_str("st", "same");
+		ev_close_obj();
+		ev_int("leak", (int)(vh_live - live0));
+		ev_end();
+	}
+	return 0;
+}
+
 /* route 4: every text over the alphabet up to length N, extended only while the real parser says
  * continue; every single split of each text */
 static int alpha[32], nalpha, maxn, efl, edepth;
@@ -1355,6 +1463,8 @@ int tok_main(int argc, char **argv)
 		return reuse_drive(atoi(argv[1]), atoi(argv[2]));
 	if (argc >= 5 && !strcmp(argv[0], "reuse-enum"))
 		return reuse_enum(argc - 1, argv + 1);
+	if (argc >= 3 && !strcmp(argv[0], "fault-drive"))
+		return fault_drive(atoi(argv[1]), atoi(argv[2]));
 	if (argc >= 3 && !strcmp(argv[0], "stream-drive"))
 		return stream_drive(atoi(argv[1]), atoi(argv[2]));
 	if (argc >= 3 && !strcmp(argv[0], "split-drive"))
